@@ -1,5 +1,6 @@
 mod codec;
 mod coqfmt;
+mod merkle;
 mod out;
 mod rng;
 mod stf;
@@ -43,6 +44,7 @@ fn main() {
         "codec" => codec::run(tier, seed, &mut em),
         "vm" => vm::run(tier, seed, &mut em),
         "stf" => stf::run(tier, seed, &mut em),
+        "merkle" => merkle::run(tier, seed, &mut em),
         _ => { eprintln!("unknown stream"); std::process::exit(2); }
     }
     em.finish();
